@@ -630,13 +630,14 @@ def binder_renames(then, now):
     then = [tuple(x) if len(x) == 3 else (x[0], '', x[1]) for x in then]
     then_names = set(x[2] for x in then); now_names = set(x[2] for x in now)
     cand = {}
-    def pair(o, n):
-        if o != n: cand.setdefault(o, set()).add(n)
-    for key in (lambda x: (x[0], x[1]), lambda x: x[0]):       # with shapes, and with kinds only; a name with two different targets is dropped below
+    for rnd, key in enumerate((lambda x: (x[0], x[1]), lambda x: x[0])):       # with shapes first; kinds alone only for names the first pass left open
+        settled = set(cand); taken = set(n for ns in cand.values() for n in ns)
         sm = difflib.SequenceMatcher(a=[key(x) for x in then], b=[key(x) for x in now], autojunk=False)
         for tag, i1, i2, j1, j2 in sm.get_opcodes():
             if tag == 'equal' or (tag == 'replace' and (i2 - i1) == (j2 - j1) and all(then[i1 + d][0] == now[j1 + d][0] for d in range(i2 - i1))):
-                for d in range(i2 - i1): pair(then[i1 + d][2], now[j1 + d][2])
+                for d in range(i2 - i1):
+                    o, n = then[i1 + d][2], now[j1 + d][2]
+                    if o != n and o not in settled and n not in taken: cand.setdefault(o, set()).add(n)
     ren = {}
     for o, ns in cand.items():
         if len(ns) != 1: continue
